@@ -42,6 +42,22 @@ StOf(r) ==
 
 Say(kind, prop, i, what) == PrintT(ToJson(<<kind, prop, i, what>>))
 
+\* A recorded state the predicates can be evaluated on: every listed table was dumped, is
+\* readable and non-empty, and holds only keys / values of the behaviour's alphabet.
+\* Anything else means the tree handed out data that was never written.
+WellFormed(rst) ==
+    /\ \A j \in 1..Len(rst.tbls) :
+          LET x == rst.tbls[j] IN
+          /\ x.err = "" /\ x.e # <<>>
+          /\ \A q \in 1..Len(x.e) : x.e[q].k \in 1..NKeys /\ x.e[q].v >= 0 /\ x.e[q].s >= 0
+    /\ \A j \in 1..Len(rst.mems) :
+          \A q \in 1..Len(rst.mems[j].e) : rst.mems[j].e[q].k \in 1..NKeys /\ rst.mems[j].e[q].v >= 0
+    /\ \A h \in 1..Len(rst.hist) :
+          /\ Len(rst.hist[h].lv) = NLevels
+          /\ \A lvl \in 1..NLevels : \A run \in Range(rst.hist[h].lv[lvl]) :
+                run # <<>> /\ Range(run) \subseteq Ids(rst.tbls)
+          /\ {rst.hist[h].act} \cup Range(rst.hist[h].sealed) \subseteq Ids(rst.mems)
+
 IsOk(r) == r.ret = "ok"
 \* operations that go through the compaction worker (the hook reports the choice made)
 CompactOps == {"compact", "major", "leveled", "movedown", "pulldown", "fifo"}
@@ -58,6 +74,8 @@ WriteEntries(r) ==
     {[k |-> r.op.items[j].k, s |-> r.info.s, t |-> r.op.items[j].t, v |-> r.op.items[j].v]
         : j \in 1..Len(r.op.items)}
 
+PreWF(i) == WellFormed(Rec[StIdx(i - 1)].st)
+
 \* the filter function of a merge step (rule table of the behaviour over the merge input)
 BigOf(cfg) == IF cfg.sep.on THEN cfg.sep.big ELSE {}
 StepFilter(i, cfg) ==
@@ -68,7 +86,7 @@ StepFilter(i, cfg) ==
 FilterEffects(i, cfg) ==
     LET r == Rec[i] IN
     IF cfg.rules = <<>> \/ "choice" \notin DOMAIN r.info \/ r.info.choice[1] # 1
-       \/ "shown" \notin DOMAIN r.info THEN {}
+       \/ "shown" \notin DOMAIN r.info \/ ~PreWF(i) THEN {}
     ELSE LET pre   == Pre(i)
              input == MergeInput(pre, {r.info.choice[j] : j \in 4..Len(r.info.choice)})
              seen  == {e \in Range(input) : ~IsTomb(e) /\ <<e.k, e.v>> \in Range(r.info.shown)}
@@ -81,6 +99,7 @@ FilterEffects(i, cfg) ==
 \* keys hit by a listed known finding in step i (KnownFindings.tla)
 StepHazard(i) ==
     LET r == Rec[i] IN
+    IF ~PreWF(i) THEN {} ELSE
     IF r.op.op = "flush" THEN FlushHazard(Pre(i), r.op.w)
     ELSE IF r.op.op \in CompactOps /\ "choice" \in DOMAIN r.info /\ r.info.choice[1] = 1
     THEN MergeHazard(Pre(i), {r.info.choice[j] : j \in 4..Len(r.info.choice)}, r.op.w)
@@ -95,7 +114,7 @@ GhostStep(a, i, cfg) ==
       [] r.op.op = "flush"  -> AHazard(AFlush(a), StepHazard(i))
       [] r.op.op = "fifo" ->
             \* whatever FIFO dropped is gone for later snapshots (like drop_range)
-            IF "choice" \in DOMAIN r.info /\ r.info.choice[1] = 3
+            IF "choice" \in DOMAIN r.info /\ r.info.choice[1] = 3 /\ PreWF(i)
             THEN ADropRange(a, UNION {TKeys(Pre(i).tbl[t]) : t \in {r.info.choice[j] : j \in 4..Len(r.info.choice)}},
                             r.info.s0)
             ELSE a
@@ -357,27 +376,14 @@ BlobChecks(i, r) ==
 
 
 
-\* evaluate everything on line i with ghost a (already advanced); always TRUE
-CheckLine(i, a, cfg) ==
-    LET r == Rec[i] IN
-    IF r.op.op = "reset" THEN
-        /\ (Post(i) = InitState \/ Say("DRIFT", "init", i, DiffFields(Post(i), InitState)))
-    ELSE IF r.ret # "ok" THEN
-        /\ (r.rk = "skip" \/ Say("VIOL", "OPFAIL", i, r.ret))
-    ELSE IF r.ro THEN
-        /\ (ScanLineOk(r, a) \/ Say("VIOL", "SCANX", i, <<r.op, r.info, ScanExpected(r, a)>>))
-    ELSE
-    LET st == Post(i) IN
+StateChecks(i, a, cfg) ==
+    LET r == Rec[i] st == Post(i) IN
     /\ (r.op.op # "fifo" \/ FifoOk(i) \/ Say("VIOL", "FIFO", i, r.info))
-    /\ (ObsGetOk(r, a)          \/ Say("VIOL", "READ", i, r.obs.get))
-    /\ (KnownHit(r, a) = {}     \/ Say("KNOWN", "C13-weak-shadow", i, KnownHit(r, a)))
-    /\ (ObsScanOk(r, a)         \/ Say("VIOL", "SCAN", i, r.obs.scan))
-    /\ (ScanExtrasOk(r, a)      \/ Say("VIOL", "SCANX", i, r.obs.scan))
     /\ (PStructureSound(st)     \/ Say("VIOL", "STRUCT", i, st.hist))
     /\ (MetaOk(r.st)            \/ Say("VIOL", "META", i, r.st.tbls))
     /\ (HiOk(r)                 \/ Say("VIOL", "HI", i, r.obs.hi))
     /\ (PHiSound(st, a)         \/ Say("VIOL", "HIA", i, r.obs.hi))
-    /\ (PNoInvention(st, a)     \/ Say("VIOL", "INVENT", i, StoredEntries(st) \ Durable(a)))
+    /\ (PNoInvention(st, a)     \/ Say("VIOL", "INVENT", i, StoredEntries(st) \ DurableEff(a)))
     /\ (PDurableKept(st, a, KeysT) \/ Say("VIOL", "LOST", i, Durable(a)))
     /\ (PSnapsResolve(st)       \/ Say("VIOL", "SNAPRES", i, st.snaps))
     /\ (ModelReadAgrees(r)      \/ Say("DRIFT", "read", i, r.obs.get))
@@ -390,7 +396,26 @@ CheckLine(i, a, cfg) ==
     /\ (cfg.rules = <<>> \/ "shown" \notin DOMAIN r.info \/ "choice" \notin DOMAIN r.info
           \/ r.info.choice[1] # 1 \/ ShownOk(i, cfg) \/ Say("DRIFT", "shown", i, r.info.shown))
 
------------------------------------------------------------------------------
+\* evaluate everything on line i with ghost a (already advanced); always TRUE
+CheckLine(i, a, cfg) ==
+    LET r == Rec[i] IN
+    IF r.op.op = "reset" THEN
+        /\ (Post(i) = InitState \/ Say("DRIFT", "init", i, DiffFields(Post(i), InitState)))
+    ELSE IF r.ret # "ok" THEN
+        /\ (r.rk = "skip" \/ Say("VIOL", "OPFAIL", i, r.ret))
+    ELSE IF r.ro THEN
+        /\ (ScanLineOk(r, a) \/ Say("VIOL", "SCANX", i, <<r.op, r.info, ScanExpected(r, a)>>))
+    ELSE
+    \* predicates over the observations only
+    /\ (ObsGetOk(r, a)          \/ Say("VIOL", "READ", i, r.obs.get))
+    /\ (KnownHit(r, a) = {}     \/ Say("KNOWN", "C13-weak-shadow", i, KnownHit(r, a)))
+    /\ (ObsScanOk(r, a)         \/ Say("VIOL", "SCAN", i, r.obs.scan))
+    /\ (ScanExtrasOk(r, a)      \/ Say("VIOL", "SCANX", i, r.obs.scan))
+    \* predicates over the recorded state
+    /\ IF ~WellFormed(r.st) THEN Say("VIOL", "MALFORMED", i, r.st.tbls)
+       ELSE IF r.op.op # "reset" /\ ~PreWF(i) THEN TRUE
+       ELSE StateChecks(i, a, cfg)
+
 CfgOf(r) == [sep |-> [on |-> r.op.blob, big |-> Range(r.op.big)], rules |-> r.op.filter]
 Init == l = 0 /\ A = AInit /\ C = [sep |-> NoSep, rules |-> <<>>]
 
